@@ -44,8 +44,18 @@ pub fn tok_strategy<B: Backend>(public: bool, big: bool) -> impl Strategy<Value 
             3 => (1u32..=max, 0u8..5, any::<u32>()).prop_map(|(len, fill, seed)| BytesSpec { len, fill, seed }),
         ]
     };
-    let assertion = if B::VER.has_assertion() { short(16).boxed() } else { Just(BytesSpec::empty()).boxed() };
-    (gens::key_seed(), msg_len, 0u8..4, any::<u32>(), short(24), assertion, any::<u32>()).prop_map(
+    // the larger token of each chunk also carries a long footer and assertion (every piece of the
+    // authenticated input must be covered to its last byte, whatever its length)
+    let long = |lo: u32, hi: u32| (lo..=hi, 0u8..5, any::<u32>()).prop_map(|(len, fill, seed)| BytesSpec { len, fill, seed });
+    let assertion = if !B::VER.has_assertion() {
+        Just(BytesSpec::empty()).boxed()
+    } else if big {
+        prop_oneof![1 => short(16), 2 => long(100, 400)].boxed()
+    } else {
+        short(16).boxed()
+    };
+    let footer = if big { prop_oneof![1 => short(24), 3 => long(150, 700)].boxed() } else { short(24).boxed() };
+    (gens::key_seed(), msg_len, 0u8..4, any::<u32>(), footer, assertion, any::<u32>()).prop_map(
         move |(key, len, fill, seed, footer, assertion, nonce_seed)| TokCase {
             public,
             key,
@@ -305,6 +315,15 @@ pub fn run_token<B: Backend>(acc: &mut Acc, c: &TokCase, filter: Option<&MutId>)
                 }
             }
             relabel_other_versions::<B>(acc, c, &built, filter);
+            // after all the rejected mutants the genuine token must still unseal (nothing left behind)
+            if filter.is_none() {
+                let id = MutId { class: "control-after-failures".into(), pos: 0, arg: 0 };
+                acc.eval();
+                match attempt::<B, $P, Raw>(&built.payload, &built.footer, &built.assertion, &$unsealkey, purpose) {
+                    Ok(cl) if cl.0 == m => acc.class("control-after-failures:accepted"),
+                    _ => acc.fail(Fail::new(format!("C02/{}/{purpose}/control-after-failures/rejected", B::NAME), "after the rejected mutants the genuine token no longer unseals to its claims"), serde_json::to_value(&ReplayCase { tok: c.clone(), mutant: id }).unwrap()),
+                }
+            }
             acc.sample(|| json!({"backend": B::NAME, "purpose": purpose, "payload_len": built.payload.len(), "footer_len": built.footer.len(), "assertion_len": built.assertion.len(), "example_mutants": ["flip-tag@last-bit", "shift-body-to-footer k=1", "key-bit"]}));
         }};
     }
